@@ -10,8 +10,13 @@ _NOFUNC = object()
 
 
 class Raised(Exception):
-    def __init__(self, name):
+    mi_native = True
+
+    def __init__(self, name, payload=None):
         self.name = name
+        self.payload = payload
+        self.args = (name,)
+        self.errno = None
 
 
 class _InlineExit(Exception):
@@ -49,6 +54,12 @@ def call_method(func_node, self_state, args, extra=None):
                 raise AnalysisError("missing argument %s" % n)
             env[n] = _ev(dflt[j], env)
     env[prm[0]] = "__SELF__"
+    if func_node.args.vararg is not None:
+        env[func_node.args.vararg.arg] = tuple(vals[len(names):])
+    elif len(vals) > len(names):
+        raise Raised("TypeError")
+    if func_node.args.kwarg is not None:
+        env[func_node.args.kwarg.arg] = {}
     try:
         _block(func_node.body, env)
     except _Ret as r:
@@ -161,8 +172,10 @@ def _stmt(st, env):
             for cm in reversed(entered):
                 cm.mi_exit()
         return
-    if isinstance(st, ast.Assign) and len(st.targets) == 1:
-        _store(st.targets[0], _ev(st.value, env), env)
+    if isinstance(st, ast.Assign):
+        val = _ev(st.value, env)
+        for t in st.targets:
+            _store(t, val, env)
         return
     if isinstance(st, ast.AugAssign):
         cur = _ev(_as_load(st.target), env)
@@ -235,7 +248,14 @@ def _stmt(st, env):
     if isinstance(st, ast.Return):
         raise _Ret(_ev(st.value, env) if st.value is not None else None)
     if isinstance(st, ast.Raise):
+        if st.exc is None:
+            cur = env.get("__exc__")
+            if cur is not None:
+                raise cur              # bare raise: the exception being handled, unchanged
+            raise Raised("RuntimeError")
         e = st.exc.func if isinstance(st.exc, ast.Call) else st.exc
+        if isinstance(e, ast.Name) and isinstance(env.get(e.id), Raised):
+            raise env[e.id]
         raise Raised(A.dotted(e) if e is not None else "?")
     if isinstance(st, ast.Try):
         try:
@@ -244,8 +264,13 @@ def _stmt(st, env):
             for h in st.handlers:
                 if _handler_matches(h, r.name):
                     if h.name:
-                        env[h.name] = ModelObj("exception " + r.name, {"args": (r.name,), "errno": None})
-                    _block(h.body, env)
+                        env[h.name] = r
+                    saved = env.get("__exc__")
+                    env["__exc__"] = r
+                    try:
+                        _block(h.body, env)
+                    finally:
+                        env["__exc__"] = saved
                     break
             else:
                 raise
@@ -259,7 +284,8 @@ def _stmt(st, env):
 
 _EXC_PARENTS = {
     "socket.timeout": ["TimeoutError", "socket.error", "OSError", "EnvironmentError", "IOError", "select_error"],
-    "TimeoutError": ["socket.timeout", "socket.error", "OSError", "EnvironmentError", "IOError"],
+    "TimeoutError": ["socket.timeout", "socket.error", "OSError", "EnvironmentError", "IOError", "AsyncResultTimeout"],
+    "AsyncResultTimeout": ["TimeoutError", "socket.timeout", "socket.error", "OSError", "EnvironmentError", "IOError"],
     "socket.error": ["OSError", "EnvironmentError", "IOError"], "OSError": ["socket.error", "EnvironmentError", "IOError"],
     "KeyError": ["LookupError"], "IndexError": ["LookupError"], "UnicodeDecodeError": ["ValueError"],
     "UnicodeEncodeError": ["ValueError"], "ZeroDivisionError": ["ArithmeticError"], "EOFError": [],
